@@ -25,7 +25,9 @@
   of that loop.  The machine keeps the operand stack *relative to the recursion level*: the
   caller's stack is saved (`Saved`) and the re-entered loop body starts on `[arg]`; the engine's
   stack is the concatenation of the saved stacks and the current one, so "no relative underflow"
-  implies "no underflow".  A recursion may target ANY recursive loop of the stream (the engine:
+  implies "no underflow".  When the re-entered loop ends, whatever its level left on the stack (the
+  flag for an `else` block) is dropped (`stack.truncate(base)`) and the caller continues with the
+  captured output pushed.  A recursion may target ANY recursive loop of the stream (the engine:
   only loops whose object the template got hold of).
 * `Abs`/`AE`: abstract stacks.  `v` one arbitrary value, `z`/`o` the constants 0 and 1, `l m` a
   list of `m` items, `s min` a *counted segment* (`k ≥ min` values with the number `k` on top: what
@@ -137,7 +139,7 @@ def pre (i : Instr) (s : State) : Bool :=
     match s.loops with
     | [] => false
     | false :: _ => true
-    | true :: _ => s.stack.isEmpty && !s.saved.isEmpty
+    | true :: _ => !s.saved.isEmpty
   | .jump _ => true
   | .jumpIfFalse _ => decide (1 ≤ s.stack.length)
   | .jumpIfFalseOrPop _ => decide (1 ≤ s.stack.length)
@@ -196,8 +198,10 @@ inductive Step (code : Code) : State → State → Prop where
       Step code s { s with pc := t }
   | popLoop {s L} : code[s.pc]? = some .popLoopFrame → s.loops = false :: L →
       Step code s { s with pc := s.pc + 1, loops := L }
+  /-- the end of a loop that was entered through a recursion: whatever the level left on the stack
+      (the flag for an `else` block) is dropped (`stack.truncate(base)`), the caller continues -/
   | popLoopRet {s L sv rest r} : code[s.pc]? = some .popLoopFrame → s.loops = true :: L →
-      s.stack = [] → s.saved = sv :: rest → r.length = (if sv.capture then 1 else 0) →
+      s.saved = sv :: rest → r.length = (if sv.capture then 1 else 0) →
       Step code s { pc := sv.ret, stack := r ++ sv.stack, loops := sv.loops, saved := rest }
   | jump {s t} : code[s.pc]? = some (.jump t) → Step code s { s with pc := t }
   | jumpIfFalseFall {s t a rest} : code[s.pc]? = some (.jumpIfFalse t) → s.stack = a :: rest →
@@ -412,12 +416,7 @@ def checkPc (code : Code) (cert : Cert) (pc : Nat) : Bool :=
     match floorsOf code cert A.loops with
     | none => false
     | some fs =>
-      fs.all (checkAt code cert pc A) &&
-      -- a recursive loop is left exactly at its floor
-      (match code[pc]?, A.loops with
-       | some .popLoopFrame, t :: _ =>
-         if isRecLoop code t then decide (floorOf cert t = some A.stk.length) else true
-       | _, _ => true)
+      fs.all (checkAt code cert pc A)
 
 def checkStk (code : Code) (cert : Cert) : Bool :=
   (entries code).all (fun e => decide (look cert e.1 = some ⟨List.replicate e.2 .v, []⟩)) &&
